@@ -62,3 +62,20 @@ func QuietOffAfter(f func()) {
 // Poke wakes the driver so that wait conditions are evaluated again (used by
 // timers and context callbacks, which are not tasks).
 func (s *Sim) Poke() { s.poke() }
+
+// RandIntn and friends replace the package-level functions of math/rand in instrumented code: the
+// draw comes from the run's decision stream (0 outside a simulation).
+func RandIntn(n int) int {
+	if s := active.Load(); s != nil && n > 0 {
+		return s.Choose(n, "math/rand")
+	}
+	return 0
+}
+func RandInt63n(n int64) int64 {
+	if n > 1<<30 {
+		return int64(RandIntn(1<<30)) % n
+	}
+	return int64(RandIntn(int(n)))
+}
+func RandInt31n(n int32) int32 { return int32(RandIntn(int(n))) }
+func RandFloat64() float64     { return float64(RandIntn(1<<20)) / float64(1<<20) }
